@@ -203,7 +203,7 @@ def classify(v):
         tags["problem"] = "oddpos-parity"
     tags["first_op_only"] = "+" not in name.split(":")[0]
     if tags["op"] == "expand_dims":
-        m = re.match(r"expand_dims\((-?\d+), (.*), (True|False)\)", name)
+        m = re.match(r"expand_dims\((-?\d+), (.*), (True|False|None)\)", name)
         spec = v.get("spec") or {}
         # only the documented situation: an explicit odd-parity charge was inserted
         if not m or m.group(2) == "None":
